@@ -203,6 +203,62 @@ fn smoke_timeout(dur_ms: u64, fut_ms: u64) -> String {
     }
 }
 
+/// A future that needs MANY wake-ups before it completes, all far inside the timeout: `k` sequential sleeps of `ms`.
+/// Only one direction is asserted (so it cannot flake on a loaded machine): `Err(Timeout)` although less than half of
+/// the duration has elapsed is a failure. block_timeout's deadline is fixed at the start; the number of wake-ups
+/// before it must not matter (C42_block_timeout_no_early_timeout).
+fn smoke_chain(k: u64, ms: u64, dur_ms: u64) -> String {
+    let td = TimerDriver::new();
+    let h = td.handle();
+    let start = Instant::now();
+    let r = block_timeout(Duration::from_millis(dur_ms), async move {
+        for _ in 0..k {
+            h.sleep(Duration::from_millis(ms)).await;
+        }
+        k
+    });
+    let el = start.elapsed();
+    match r {
+        Ok(v) if v == k => {
+            if el < Duration::from_millis(k * ms) { format!("fail early {el:?}") } else { "ok".into() }
+        }
+        Ok(_) => "fail value".into(),
+        Err(_) => {
+            if el < Duration::from_millis(dur_ms / 2) {
+                format!("fail timeout-early after {el:?} of {dur_ms} ms ({k} x {ms} ms)")
+            } else {
+                "ok".into() // the machine was too slow for this run to say anything
+            }
+        }
+    }
+}
+
+/// The same with wake-ups that do not come from the timer: the future wakes itself `k` times before it is Ready.
+fn smoke_yields(k: u64, dur_ms: u64) -> String {
+    struct Yield(u64);
+    impl Future for Yield {
+        type Output = u64;
+        fn poll(mut self: Pin<&mut Self>, cx: &mut Context<'_>) -> Poll<u64> {
+            if self.0 == 0 {
+                Poll::Ready(7)
+            } else {
+                self.0 -= 1;
+                cx.waker().wake_by_ref();
+                Poll::Pending
+            }
+        }
+    }
+    let start = Instant::now();
+    match block_timeout(Duration::from_millis(dur_ms), Yield(k)) {
+        Ok(7) => "ok".into(),
+        Ok(_) => "fail value".into(),
+        Err(_) => {
+            let el = start.elapsed();
+            if el < Duration::from_millis(dur_ms / 2) { format!("fail timeout-early after {el:?} of {dur_ms} ms") } else { "ok".into() }
+        }
+    }
+}
+
 fn step(st: &mut St, t: &[&str]) -> String {
     let num = |s: &str| s.parse::<u64>().ok();
     match t {
@@ -318,6 +374,14 @@ fn step(st: &mut St, t: &[&str]) -> String {
         },
         ["smoke.timeout", d, f] => match (num(d), num(f)) {
             (Some(d), Some(f)) if d <= 1000 && f <= 1000 => smoke_timeout(d * 10, f),
+            _ => "bad-op".into(),
+        },
+        ["smoke.chain", k, ms, d] => match (num(k), num(ms), num(d)) {
+            (Some(k), Some(ms), Some(d)) if k <= 1000 && ms <= 1000 && d <= 1000 => smoke_chain(k, ms, d * 10),
+            _ => "bad-op".into(),
+        },
+        ["smoke.yields", k, d] => match (num(k), num(d)) {
+            (Some(k), Some(d)) if k <= 1000 && d <= 1000 => smoke_yields(k, d * 10),
             _ => "bad-op".into(),
         },
         _ => "bad-op".into(),
